@@ -212,17 +212,25 @@ fn extract_files_with_metadata(
     progress_callback: &Option<ProgressCallback>,
 ) -> Result<Vec<(Vec<u8>, FileMetadata)>> {
     // Get file list, preferring the most complete method
-    let files = if metadata.has_het_bet {
-        // Prefer the real names from the (listfile): the generic names produced by
-        // table enumeration cannot be read back, so every file would be skipped
-        match archive.list() {
-            Ok(files) => files,
-            Err(_) => archive.list_all_with_hashes().unwrap_or_default(),
+    // An I/O failure while enumerating the source says nothing about the archive: it must
+    // abort the rebuild instead of producing a target with fewer (or no) files.
+    let files = match archive.list() {
+        Ok(files) => files,
+        Err(Error::Io(e)) => return Err(Error::Io(e)),
+        Err(_) => {
+            // Prefer the real names from the (listfile): the generic names produced by
+            // table enumeration cannot be read back, so every file would be skipped
+            let fallback = if metadata.has_het_bet {
+                archive.list_all_with_hashes()
+            } else {
+                archive.list_all()
+            };
+            match fallback {
+                Ok(files) => files,
+                Err(Error::Io(e)) => return Err(Error::Io(e)),
+                Err(_) => Vec::new(),
+            }
         }
-    } else {
-        archive
-            .list()
-            .unwrap_or_else(|_| archive.list_all().unwrap_or_default())
     };
 
     let mut extracted_files = Vec::new();
@@ -248,6 +256,9 @@ fn extract_files_with_metadata(
         // Extract file data
         let data = match archive.read_file(&file.name) {
             Ok(data) => data,
+            // An I/O failure is not a property of the file: abort and leave the target
+            // untouched instead of silently writing an archive without this file.
+            Err(Error::Io(e)) => return Err(Error::Io(e)),
             Err(e) => {
                 log::warn!("Failed to read file {}: {}", file.name, e);
                 continue;
